@@ -1,4 +1,4 @@
-use rusty_parser::{AsBareName, Expression};
+use rusty_parser::{AsBareName, Expression, TypeQualifier};
 
 use super::expression_reducer::*;
 use crate::core::{LintErrorPos, LinterContext, binary_cast};
@@ -30,6 +30,9 @@ impl<'a> ExpressionReducer for UndefinedFunctionReducer<'a> {
                         name,
                         self.visit_expressions(args)?,
                     ))
+                } else if name.qualifier() == Some(TypeQualifier::DollarString) {
+                    // an undefined string function is an empty string
+                    Ok(Expression::StringLiteral(String::new()))
                 } else {
                     // the user_defined_function_linter already ensures that the args are valid
                     Ok(Expression::IntegerLiteral(0))
